@@ -39,7 +39,36 @@ Proof.
   destruct (validate (d_basis_size digest d) (d_ops digest d)); reflexivity.
 Qed.
 
+(** ** delta.rs: Delta::push_copy / push_literal / push_literal_byte - how a delta is BUILT (both engines call them):
+    a copy contiguous with the last copy extends it (unless the u32 length would overflow), a literal is appended to a
+    last literal, anything else starts a new operation - with the offset and length it was given *)
+Lemma tie_push_copy (ops : list dop) (off len : Z) : g_push_copy ops off len = push_copy ops off len.
+Proof.
+  unfold g_push_copy, push_copy. destruct ops as [|[o l|p] r]; try reflexivity.
+  destruct (o + l =? off); cbn [andb]; [|reflexivity].
+  destruct (Z.leb_spec (l + len) 4294967295) as [H1|H1], (Z.ltb_spec (l + len) P32) as [H2|H2]; unfold P32 in *; try reflexivity; lia.
+Qed.
+Lemma tie_push_literal (ops : list dop) (data : list Z) : g_push_literal ops data = push_lit ops data.
+Proof. reflexivity. Qed.
+Lemma tie_push_literal_byte (ops : list dop) (x : Z) : g_push_literal_byte ops x = push_lit_byte ops x.
+Proof. reflexivity. Qed.
+
+(** a new copy operation always carries exactly the offset and length of the call: what is appended to the output is
+    the basis range [off, off+len) - never another range *)
+Lemma push_copy_covers (ops : list dop) (off len : Z) :
+  (exists r, g_push_copy ops off len = Copy off len :: r) \/
+  (exists o l r, ops = Copy o l :: r /\ o + l = off /\ g_push_copy ops off len = Copy o (l + len) :: r).
+Proof.
+  unfold g_push_copy. destruct ops as [|[o l|p] r]; try (left; eexists; reflexivity).
+  destruct (Z.eqb_spec (o + l) off) as [E|E]; [|left; eexists; reflexivity].
+  destruct (l + len <=? 4294967295); [|left; eexists; reflexivity].
+  right. exists o, l, r. split; [reflexivity|]. split; [exact E|reflexivity].
+Qed.
+
 Definition delta_validate_model_is_translation : Prop :=
-  forall (digest : Type) (d : delta digest), g_delta_validate digest d = validate (d_basis_size digest d) (d_ops digest d).
+  (forall (digest : Type) (d : delta digest), g_delta_validate digest d = validate (d_basis_size digest d) (d_ops digest d)) /\
+  (forall ops off len, g_push_copy ops off len = push_copy ops off len) /\
+  (forall ops data, g_push_literal ops data = push_lit ops data) /\
+  (forall ops x, g_push_literal_byte ops x = push_lit_byte ops x).
 Lemma delta_validate_model_is_translation_holds : delta_validate_model_is_translation.
-Proof. exact tie_delta_validate. Qed.
+Proof. split; [exact tie_delta_validate|]. split; [exact tie_push_copy|]. split; [exact tie_push_literal|exact tie_push_literal_byte]. Qed.
